@@ -1163,7 +1163,7 @@ def gen_C08(rng, tier):
 
 
 def gen_C09(rng, tier):
-    out = []
+    out = [x for x in error_path_battery(tier) if x[0].startswith("cache-header")]
     for B in [1, 2, 3, 4, 10]:
         for p in ([0, 4] if tier == "quick" else [0, 1, 2, 3, 4, 8]):
             h = Hist(p, caches=[B])
@@ -1202,8 +1202,12 @@ def gen_C09(rng, tier):
             elif r < 0.3:
                 h.op(f"rm c{B}i")
             else:
-                # cut inside the data region of the cache file (header is > 1300 bytes)
-                h.op(f"cut c{B} {rng.randrange(1400, 1400 + (len(h.ts) // B + 2) * (h.ms + h.ls))}")
+                # cut anywhere in the cache file: inside its header (4 + 167 bytes for a one-digit
+                # bucket size) or inside its data region
+                if rng.random() < 0.25:
+                    h.op(f"cut c{B} {rng.randrange(0, 172)}")
+                else:
+                    h.op(f"cut c{B} {rng.randrange(168, 172 + (len(h.ts) // B + 2) * (h.ms + h.ls))}")
                 if rng.random() < 0.3:
                     h.op(f"rm c{B}i")
             h.open()
@@ -1228,6 +1232,14 @@ def gen_C09(rng, tier):
             h.op(f"cut data {total - k * h.ls}")
             h.open()
             h.op("read_all s=U e=U")
+            # keep appending: the lines the straddling bucket already accounts for are skipped
+            # (`lines_to_skip`), later buckets must line up again
+            h.op(f"pushrun ts0={h.last() + 5} step=3 count={2 * B + 1} seed={k}")
+            h.op("files")
+            h.op("read_n n=2 s=U e=U")
+            h.op("close")
+            h.open()
+            h.op("files")
             h.op("close")
         out.append((f"ahead-B{B}-p{p}", h.script()))
     return out
@@ -1337,6 +1349,70 @@ def gen_C16(rng, tier):
     return out
 
 
+def error_path_battery(tier):
+    """error paths of open that only appear with damaged or foreign files: a cache whose own file header
+    is cut or damaged, a cache created from / caught up with a source that has a damaged section
+    (with and without the callback), a file of another format version"""
+    out = []
+    # 1. cache file header cut / damaged
+    for p, B in [(4, 3), (0, 2)]:
+        h = Hist(p, caches=[B])
+        h.new()
+        h.pushrun(10, 7, 3 * B + 1, 3)
+        h.op("close")
+        h.op("save 0")
+        for cut in [0, 1, 2, 3, 4, 5, 60, 167, 168, 169, 170, 171]:
+            h.op("restore 0")
+            h.op(f"cut c{B} {cut}")
+            h.open()
+            h.op("files")
+            h.op("close")
+        for off, val in [(0, "ff"), (1, "ff"), (2, "00"), (3, "00"), (10, "00"), (100, "7a")]:
+            h.op("restore 0")
+            h.op(f"damage c{B} {off} {val}")
+            h.open()
+            h.op("files")
+            h.op("close")
+        out.append((f"cache-header-p{p}", h.script()))
+    # 2./3. damaged source section while a cache is created / caught up
+    for p, B in [(4, 3), (1, 2)]:
+        for attach in ("create", "catchup"):
+            h = Hist(p, caches=[B] if attach == "catchup" else [])
+            h.new()
+            h.pushrun(10, 3, 2 * B + 1, 1)
+            h.pushrun(h.last() + 100000, 1, 2 * B + 2, 2)
+            h.pushrun(h.last() + 100000, 5, B + 1, 3)
+            if not marker_free(p, h.ts):
+                continue
+            H = header_len(p, 0)
+            h.op("close")
+            h.op("save 0")
+            for cb in ("none", "F", "T"):
+                for sec in (1, 2):
+                    h.op("restore 0")
+                    h.op(f"damage data {H + h.sections[sec][1] + h.ls} 0000")
+                    if attach == "catchup":
+                        h.op(f"cut c{B} 0" if sec == 2 else f"rm c{B}i")
+                    h.caches = [B]
+                    h.open(cb=cb)
+                    h.op("files")
+                    h.op("close")
+            out.append((f"damaged-source-{attach}-p{p}", h.script()))
+    # 4. another format version
+    for p in (0, 4):
+        h = Hist(p)
+        h.new()
+        h.push(5, pl=bytes(p))
+        h.op("close")
+        h.op("damage data 89 32")        # "This is a byteseries 1 file" -> 2
+        h.open()
+        h.op("files")
+        h.open(p=p)
+        h.op("files")
+        out.append((f"other-version-p{p}", h.script()))
+    return out
+
+
 def text_header_battery(tier):
     out = []
     # TEXT headers (what users store: RON/JSON with unit symbols): valid UTF-8 with 2-, 3- and 4-byte
@@ -1413,6 +1489,7 @@ def gen_C17(rng, tier):
             h.op("files")
         out.append(("contract", h.script()))
     out += text_header_battery(tier)
+    out += [x for x in error_path_battery(tier) if x[0].startswith("other-version")]
     # stale sidecar files make a create fail: nothing new may be left behind
     for stale in ["index", "part"]:
         h = Hist(4, caches=[2] if stale.startswith("c") else [])
@@ -1511,6 +1588,7 @@ def gen_C18(rng, tier):
 def gen_C19(rng, tier):
     out = spread_battery(["len", "read_n n=2 s=U e=U", "read_all s=U e=U"])
     out += text_header_battery(tier)      # builder options: demanded vs stored text headers
+    out += error_path_battery(tier)
     # bucket sizes at the far end of usize
     for caches in ([U64], [1 << 63], [3, U64], [(1 << 32) + 1]):
         h = Hist(4, caches=caches)
